@@ -128,6 +128,271 @@ def gen(ctx):
     return ops
 
 
+
+# --------------------------------------------------------------------------
+# part 2: the algorithm applied is the one the merged header of the result names;
+#         zip is honoured only from the protected header
+# --------------------------------------------------------------------------
+import keys as K
+import jwegen as E
+import jwsgen as G
+from props import c04 as C04
+from props import c03 as C03
+
+SHAPE = {"A128GCM": (12, 16, None), "A192GCM": (12, 16, None), "A256GCM": (12, 16, None),
+         "A128CBC-HS256": (16, 16, 16), "A192CBC-HS384": (16, 24, 16), "A256CBC-HS512": (16, 32, 16)}
+SIGLEN = {"HS256": 32, "HS384": 48, "HS512": 64, "ES256": 64, "ES384": 96, "ES512": 132, "ES256K": 64}
+
+
+def merged_jwe(tok, rcp=None):
+    p = as_obj(tok.get("protected", "ABSENT"))
+    return expect([p if p is not None else 0, tok.get("unprotected", "ABSENT"),
+                   (rcp or {}).get("header", "ABSENT")])
+
+
+def p_recorded_enc(op, args, real):
+    """shape of a produced JWE against the content encryption its own merged header names"""
+    pf = C04.p_enc(op, args, real)
+    if pf:
+        return pf
+    if "crash" in real:
+        return None
+    if args.get("_must_fail") and real.get("ok"):
+        return ("enc:silently-different", "the call succeeded although the caller's values contradict each other (%s): %s"
+                % (args.get("_why"), json.dumps(C04.strip(args))[:300]))
+    tok = real.get("jwe")
+    if not real.get("ok") or not isinstance(tok, dict) or "ciphertext" not in tok:
+        return None
+    h = merged_jwe(tok)
+    if h is None or h.get("enc") not in SHAPE:
+        return ("enc:recorded", "produced object does not name a content encryption: " + json.dumps(tok)[:300])
+    if args.get("_enc") and h["enc"] != args["_enc"]:
+        return ("enc:recorded", "merged header names %s, the caller's most trusted value is %s" % (h["enc"], args["_enc"]))
+    ivl, tagl, blk = SHAPE[h["enc"]]
+    iv, tag, ct = (G.b64d(tok.get(m, "")) for m in ("iv", "tag", "ciphertext"))
+    ptl = len(args.get("pt", "")) // 2
+    prot = as_obj(tok.get("protected", "ABSENT")) or {}
+    zipped = "zip" in prot
+    why = None
+    if len(iv) != ivl or len(tag) != tagl:
+        why = "iv %d / tag %d bytes" % (len(iv), len(tag))
+    elif not zipped and blk is None and len(ct) != ptl:
+        why = "ciphertext %d bytes for %d bytes of plaintext without protected zip" % (len(ct), ptl)
+    elif not zipped and blk and len(ct) != (ptl // blk + 1) * blk:
+        why = "ciphertext %d bytes for %d bytes of plaintext without protected zip" % (len(ct), ptl)
+    if why:
+        return ("enc:applied-differs", "object names %s but %s: %s" % (h["enc"], why, json.dumps(tok)[:300]))
+    return None
+
+
+def p_recorded_sig(op, args, real):
+    pf = C03.p_sig(op, args, real)
+    if pf:
+        return pf
+    if "crash" in real:
+        return None
+    if args.get("_must_fail") and real.get("ok"):
+        return ("sig:silently-different", "signing succeeded although the caller's values contradict each other (%s)" % args.get("_why"))
+    tok = real.get("jws")
+    if not real.get("ok") or not isinstance(tok, dict):
+        return None
+    sigs = tok["signatures"] if isinstance(tok.get("signatures"), list) else [tok]
+    s = sigs[-1]
+    p = as_obj(s.get("protected", "ABSENT"))
+    h = expect([p if p is not None else 0, s.get("header", "ABSENT")])
+    if h is None or not isinstance(h.get("alg"), str):
+        return ("sig:recorded", "signature names no algorithm: " + json.dumps(s)[:300])
+    if args.get("_alg") and h["alg"] != args["_alg"]:
+        return ("sig:recorded", "merged header names %s, expected %s (%s)" % (h["alg"], args["_alg"], args.get("_why")))
+    if args.get("_inferred") and (p or {}).get("alg") != h["alg"]:
+        return ("sig:recorded", "inferred algorithm not written to the protected header: " + json.dumps(s)[:300])
+    n = SIGLEN.get(h["alg"])
+    if h["alg"][:2] in ("RS", "PS") and isinstance(args.get("jwk"), dict) and "n" in args["jwk"]:
+        n = len(G.b64d(args["jwk"]["n"]))
+    if n is not None and len(G.b64d(s.get("signature", ""))) != n:
+        return ("sig:applied-differs", "signature of %d bytes under recorded %s" % (len(G.b64d(s.get("signature", ""))), h["alg"]))
+    return None
+
+
+def cmp_sig(ctx, ops, p):
+    sent = [(o, C04.strip(a)) for o, a in ops]
+    back = {id(s[1]): a for s, (o, a) in zip(sent, ops)}
+    return ctx.compare(sent, lambda op, args, real: p(op, back.get(id(args), args), real),
+                       lambda op, args, real: json.dumps(args, sort_keys=True)[:2000], canon=C03.canon)
+
+
+def run_recorded(ctx):
+    rng = ctx.rng
+    pool = K.pool(ctx.jose)
+    pts = [b"", b"x", rng.randbytes(15), rng.randbytes(16), rng.randbytes(33), b"compressible " * 40]
+
+    def octk(n, **kw):
+        return dict({"kty": "oct", "k": G.b64u(rng.randbytes(n))}, **kw)
+
+    # ---- content encryption: conflicting `enc` across protected / shared unprotected / key ----
+    ops = []
+    for ep in E.ENCS:
+        for eu in E.ENCS:
+            for pt in (pts[4], rng.choice(pts)):
+                base = {"pt": pt.hex(), "rand": rng.randbytes(64).hex(), "_zip": False}
+                # protected hides unprotected: the key fits the protected value
+                ops.append(("jwe.enc_cek", dict(base, jwe={"protected": {"enc": ep}, "unprotected": {"enc": eu}},
+                                                cek=octk(E.CEKLEN[ep]), _enc=ep, _expect_ok=True, _why="prot %s / unprot %s" % (ep, eu))))
+            if ep != eu:
+                # key's own alg contradicts the header value in force
+                ops.append(("jwe.enc_cek", dict(base, jwe={"protected": {"enc": ep}, "unprotected": {"enc": eu}},
+                                                cek=octk(E.CEKLEN[eu], alg=eu), _must_fail=True, _why="cek alg %s, protected enc %s" % (eu, ep))))
+                ops.append(("jwe.enc_cek", dict(base, jwe={"unprotected": {"enc": eu}},
+                                                cek=octk(E.CEKLEN[ep], alg=ep), _must_fail=True, _why="cek alg %s, unprotected enc %s" % (ep, eu))))
+        # only the shared unprotected header names it; nothing names it (inferred from the key's alg / size)
+        ops.append(("jwe.enc_cek", {"jwe": {"unprotected": {"enc": ep}, "protected": {"kid": "p"}}, "cek": octk(E.CEKLEN[ep]), "pt": pts[4].hex(),
+                                    "rand": rng.randbytes(64).hex(), "_zip": False, "_enc": ep, "_expect_ok": True, "_why": "unprotected only"}))
+        ops.append(("jwe.enc_cek", {"jwe": {"unprotected": {"kid": "u"}}, "cek": octk(E.CEKLEN[ep], alg=ep), "pt": pts[4].hex(),
+                                    "rand": rng.randbytes(64).hex(), "_zip": False, "_enc": ep, "_expect_ok": True, "_why": "from cek alg"}))
+        ops.append(("jwe.enc_cek", {"jwe": {}, "cek": octk(E.CEKLEN[ep]), "pt": pts[4].hex(),
+                                    "rand": rng.randbytes(64).hex(), "_zip": False, "_expect_ok": True, "_why": "from cek size"}))
+    # zip named outside the protected header is not applied; inside it is
+    for ce in E.ENCS:
+        for where in ("unprotected", "none", "protected", "both"):
+            jwe = {"protected": {"enc": ce}}
+            if where in ("unprotected", "both"):
+                jwe["unprotected"] = {"zip": "DEF"}
+            if where in ("protected", "both"):
+                jwe["protected"]["zip"] = "DEF"
+            ops.append(("jwe.enc_cek", {"jwe": jwe, "cek": octk(E.CEKLEN[ce]), "pt": pts[5].hex(), "rand": rng.randbytes(64).hex(),
+                                        "_zip": where in ("protected", "both"), "_enc": ce, "_expect_ok": True, "_why": "zip in " + where}))
+        ops.append(("jwe.enc_cek", {"jwe": {"protected": {"enc": ce}, "unprotected": {"zip": "NOPE"}}, "cek": octk(E.CEKLEN[ce]), "pt": pts[5].hex(),
+                                    "rand": rng.randbytes(64).hex(), "_zip": False, "_enc": ce, "_expect_ok": True, "_why": "unknown zip outside protected"}))
+    real, model = C04.cmp(ctx, ops, p_recorded_enc)
+    dec = []
+    for (op, a), r, m in zip(ops, real, model):
+        for side, res in (("jose", r), ("lean", m)):
+            if not res.get("ok"):
+                continue
+            tok = res["jwe"]
+            why = "%s-made, %s" % (side, a.get("_why"))
+            dec.append(("jwe.dec_cek", {"jwe": tok, "cek": a["cek"], "_pt": a["pt"], "_why": why}))
+            if side == "jose":
+                # less trusted headers edited after the fact: zip there must stay without effect
+                for tag, extra in (("unprotected zip injected", {"unprotected": dict(tok.get("unprotected") or {}, zip="DEF")}),
+                                   ("per-recipient zip injected", {"header": {"zip": "DEF"}}),
+                                   ("unknown unprotected zip injected", {"unprotected": dict(tok.get("unprotected") or {}, zip="NOPE")})):
+                    if "zip" in (tok.get("unprotected") or {}) and "unprot" in tag:
+                        continue
+                    dec.append(("jwe.dec_cek", {"jwe": dict(tok, **extra), "cek": a["cek"], "_pt": a["pt"], "_why": why + ", " + tag}))
+    C04.cmp(ctx, dec, C04.p_dec)
+    ctx.count("recorded:enc-tokens", len(dec))
+
+    # ---- key management: conflicting `alg` across protected / shared unprotected / per-recipient ----
+    ops = []
+    kws = [("A128KW", 16), ("A192KW", 24), ("A256KW", 32), ("A128GCMKW", 16), ("A256GCMKW", 32)]
+    layers = ("protected", "unprotected", "recipient")
+    for (wa, la), (wb, lb) in itertools.permutations(kws, 2):
+        if la == lb:
+            continue
+        for hi, lo in ((0, 1), (0, 2), (1, 2)):
+            for fits in ("hi", "lo"):
+                jwe, rcp = {"protected": {"enc": "A128GCM"}}, {}
+                for layer, w in ((layers[hi], wa), (layers[lo], wb)):
+                    if layer == "protected":
+                        jwe["protected"]["alg"] = w
+                    elif layer == "unprotected":
+                        jwe["unprotected"] = {"alg": w}
+                    else:
+                        rcp = {"header": {"alg": w}}
+                a = {"jwe": jwe, "rcp": rcp, "jwk": octk(la if fits == "hi" else lb), "pt": pts[4].hex(), "rand": rng.randbytes(200).hex(),
+                     "_wrap": wa, "_zip": False, "_why": "%s=%s over %s=%s, key fits the %s one" % (layers[hi], wa, layers[lo], wb, fits)}
+                a["_expect_ok" if fits == "hi" else "_must_fail"] = True
+                ops.append(("jwe.enc", a))
+    # the key's alg contradicts the header's
+    for (wa, la), (wb, lb) in itertools.permutations(kws[:3], 2):
+        ops.append(("jwe.enc", {"jwe": {"protected": {"enc": "A128GCM", "alg": wa}}, "jwk": octk(la, alg=wb), "pt": pts[1].hex(),
+                                "rand": rng.randbytes(200).hex(), "_nodec": True, "_why": "key alg %s, protected alg %s" % (wb, wa)}))
+    # inference: nothing named; key alg; key type, size, curve; password length classes
+    inf = [(pool["oct-16"], "A128KW"), (pool["oct-24"], "A192KW"), (pool["oct-32"], "A256KW"),
+           (pool["EC-P256"], "ECDH-ES+A128KW"), (pool["EC-P384"], "ECDH-ES+A192KW"), (pool["EC-P521"], "ECDH-ES+A256KW"),
+           (pool["RSA-2048"], "RSA-OAEP"), ("short pw", "PBES2-HS256+A128KW"), ("p" * 27, "PBES2-HS256+A128KW"),
+           ("p" * 28, "PBES2-HS384+A192KW"), ("p" * 36, "PBES2-HS384+A192KW"), ("p" * 37, "PBES2-HS512+A256KW")]
+    for w in E.WRAPS:
+        if w == "dir":
+            continue
+        k = E.key_for(pool, w, "A128GCM", rng)
+        if isinstance(k, dict):
+            inf.append((dict(k, alg=w), w))
+    for ce in E.ENCS:
+        inf.append((dict(pool[E.OCT_BY_LEN[E.CEKLEN[ce]]], alg=ce), "dir"))
+    for k, w in inf:
+        for jwe in ({}, {"protected": {"kid": "x"}}, {"unprotected": {"kid": "u"}}):
+            for rcp in (None, {"header": {"kid": "r"}}):
+                a = {"jwe": jwe, "jwk": k, "pt": pts[1].hex(), "rand": rng.randbytes(200).hex(), "_wrap": w,
+                     "_expect_ok": True, "_walg": w, "_why": "inferred " + w}
+                if rcp is not None:
+                    a["rcp"] = rcp
+                ops.append(("jwe.enc", a))
+
+    def p_enc_alg(op, args, real):
+        pf = p_recorded_enc(op, args, real)
+        if pf:
+            return pf
+        tok = real.get("jwe")
+        if real.get("ok") and isinstance(tok, dict) and args.get("_walg"):
+            rcp = tok["recipients"][-1] if isinstance(tok.get("recipients"), list) and tok["recipients"] else tok
+            if (rcp.get("header") or {}).get("alg") != args["_walg"]:
+                return ("enc:recorded", "inferred key management %s not written to the per-recipient header: %s"
+                        % (args["_walg"], json.dumps(tok)[:300]))
+        return None
+    real, model = C04.cmp(ctx, ops, p_enc_alg)
+    dec = []
+    for (op, a), r, m in zip(ops, real, model):
+        for side, res in (("jose", r), ("lean", m)):
+            if res.get("ok") and not a.get("_nodec"):
+                dec.append(("jwe.dec", {"jwe": res["jwe"], "jwk": a["jwk"], "rand": "00" * 600, "_pt": a["pt"],
+                                        "_why": "%s-made, %s" % (side, a.get("_why"))}))
+    C04.cmp(ctx, dec, C04.p_dec)
+    ctx.count("recorded:alg-tokens", len(dec))
+
+    # ---- JWS: conflicting / inferred `alg` ----
+    ops = []
+    hs = [("HS256", "oct-32"), ("HS384", "oct-48"), ("HS512", "oct-64")]
+    asym = [("ES256", "EC-P256"), ("ES384", "EC-P384"), ("ES512", "EC-P521"), ("ES256K", "EC-K256"), ("RS256", "RSA-2048"), ("PS384", "RSA-2048")]
+    allowed = set(a.get("name") if isinstance(a, dict) else a for a in ctx.tables.get("algs", [])) if isinstance(ctx.tables, dict) else set()
+    for (a1, k1), (a2, k2) in itertools.permutations(hs + asym, 2):
+        if k1 == k2:
+            continue
+        for pform in ("obj", "enc"):
+            prot = {"alg": a1}
+            sig = {"protected": prot if pform == "obj" else enc(prot), "header": {"alg": a2}}
+            ops.append(("jws.sig", {"jws": {"payload": "cGF5"}, "sig": sig, "jwk": pool[k1], "_expect_ok": True, "_alg": a1,
+                                    "_why": "protected %s (%s) over header %s, key fits protected" % (a1, pform, a2)}))
+            if a1.startswith("HS") and k2.startswith("oct") and int(k2.split("-")[1]) >= SIGLEN[a1]:
+                continue        # an HMAC key long enough for the protected algorithm as well
+            ops.append(("jws.sig", {"jws": {"payload": "cGF5"}, "sig": sig, "jwk": pool[k2], "_must_fail": True,
+                                    "_why": "protected %s (%s) over header %s, key fits header only" % (a1, pform, a2)}))
+        ops.append(("jws.sig", {"jws": {"payload": "cGF5"}, "sig": {"header": {"alg": a2}}, "jwk": dict(pool[k1], alg=a1), "_must_fail": True,
+                                "_why": "key alg %s, header alg %s" % (a1, a2)}))
+    infs = [("oct-16", "HS256"), ("oct-32", "HS256"), ("oct-48", "HS384"), ("oct-64", "HS512"), ("oct-128", "HS512"),
+            ("EC-P256", "ES256"), ("EC-P384", "ES384"), ("EC-P521", "ES512"), ("EC-K256", "ES256K"), ("RSA-2048", "RS256"),
+            ("RSA-3072", "RS256"), ("RSA-4096", "RS256")]
+    for kn, a in infs:
+        for sig in (None, {}, {"protected": {"kid": "k"}}, {"header": {"kid": "k"}}, {"protected": {}, "header": {"x": 1}}):
+            o = {"jws": {"payload": "cGF5"}, "jwk": pool[kn], "_inferred": True, "_why": "inferred from " + kn}
+            if sig is not None:
+                o["sig"] = sig
+            ops.append(("jws.sig", o))
+    for (a1, k1) in hs + asym + [("PS256", "RSA-2048"), ("RS512", "RSA-3072")]:
+        ops.append(("jws.sig", {"jws": {"payload": "cGF5"}, "jwk": dict(pool[k1], alg=a1), "_expect_ok": True, "_alg": a1, "_inferred": True,
+                                "_why": "from key alg " + a1}))
+    real, model = cmp_sig(ctx, ops, p_recorded_sig)
+    ver = []
+    for (op, a), r, m in zip(ops, real, model):
+        for side, res in (("jose", r), ("lean", m)):
+            if res.get("ok") and isinstance(res.get("jws"), dict):
+                k = {x: v for x, v in a["jwk"].items() if x != "alg"}
+                ver.append(("jws.ver", {"jws": res["jws"], "jwk": k, "all": False, "_expect": True, "_why": "%s-made, %s" % (side, a.get("_why"))}))
+    cmp_sig(ctx, ver, C03.p_ver)
+    ctx.count("recorded:jws-tokens", len(ver))
+
+
 def run(ctx):
     ctx.compare(gen(ctx), p_check, nontrivial)
     ctx.exhaustive = True
